@@ -63,6 +63,7 @@ def _java(args, env=None, timeout=600, heap="4g", deque=False, serial=False):
         cmd.append("-XX:ParallelGCThreads=8")
     if deque:
         cmd.append("-Dtlc2.tool.queue.IStateQueue=StateDeque")
+    cmd.append("-Djava.io.tmpdir=" + scratch())       # TLC leaves an empty tlc-* directory per run in java.io.tmpdir
     cmd += ["-cp", JAR, "tlc2.TLC"] + list(args)
     e = dict(os.environ)
     e.pop("JAVA_TOOL_OPTIONS", None)
